@@ -308,6 +308,7 @@ int main(int argc, char ** argv)
   }
   { Op o{"set_esum(0.5,1.5)", 4}; o.a = 0.5; o.b = 1.5; ops.push_back(o); }
   { Op o{"set_esum(1.5,0.5)", 4}; o.a = 1.5; o.b = 0.5; ops.push_back(o); }
+  { Op o{"set_esum(1,1)", 4}; o.a = 1.0; o.b = 1.0; ops.push_back(o); }
   ops.push_back({"add_operation(MDL)", 5});
   ops.push_back({"add_operation(null)", 6});
   ops.push_back({"initialize", 7});
